@@ -78,7 +78,7 @@ def run_whip(mods, ref, variable, dtype, limit, outfile, ctx, schedule, canary=F
 def run_case(case):
     res = CaseResult()
     mods = common.mods()
-    ref = families.make_ref('p', case['mesh'], case['fields'], layout=case['layout'], geom=case['geom'])
+    ref = families.make_ref('p', case['mesh'], case['fields'], layout=case['layout'], geom=case['geom'], header_digits=case.get('header_digits'))
     viol = {}
     runs = []
     for variable in [ref.fields[0], ref.fields[-1]]:
@@ -118,8 +118,7 @@ def run_case(case):
     for sig, v in viol.items():
         if not common.claim('C10', sig):
             continue
-        d = make_replay(ref, v)
-        status, out = common.run_replay(d)
+        d, status, out = common.replay_portfolio(lambda: make_replay(ref, v))
         v2 = {'signature': sig, 'what': v['what'], 'replay': d}
         if status == 'reproduced':
             res['violations'].append(v2)
@@ -170,6 +169,10 @@ def cases():
             lays = families.all_layouts(3, 3)
             for lay in (lays[::3] if tier == 'quick' else lays):
                 out.append({'label': '%s/layout%s' % (m.name, lay), 'mesh': m, 'fields': fsets[1], 'layout': [lay], 'geom': 1})
+    # a writer that prints its geometry with six significant digits (cell sizes of consecutive levels are then not exactly a
+    # factor two apart as numbers)
+    for m in [x for x in meshes if len(x.boxes) > 1][:2 if tier == 'quick' else 4]:
+        out.append({'label': '%s/6-digit-geometry' % m.name, 'mesh': m, 'fields': fsets[1], 'layout': families.scatter_layouts(m, rnd, max_files=2), 'geom': 4, 'header_digits': 6})
     for r in range(5 if tier == 'quick' else 100):
         m = families.random_mesh(rnd, 3, max_levels=3, max_boxes=4, max_extent=4)
         m.name = 'rand%d-3d' % r
